@@ -25,6 +25,9 @@ pub struct SchedCase {
     /// choice among the enabled (parked) threads at every step, taken modulo
     /// their number; past the end the lowest thread runs
     pub schedule: Vec<u8>,
+    /// bit k set: the k-th compare_exchange_weak of the run fails spuriously
+    #[serde(default)]
+    pub spurious: u8,
 }
 
 pub struct Payload {
@@ -63,6 +66,8 @@ struct Ctl {
     trace: Vec<TEv>,
     pending_cell: Vec<Option<(usize, Vec<u8>)>>,
     abort: bool,
+    spurious_mask: u8,
+    weak_cas_seen: u32,
 }
 
 struct Shared {
@@ -118,6 +123,12 @@ struct ThreadTracer {
 impl Tracer for ThreadTracer {
     fn before(&self, _ev: &Event) {
         self.shared.park(self.t);
+    }
+    fn fail_weak_spuriously(&self, _ev: &Event) -> bool {
+        let mut g = self.shared.lock();
+        let k = g.weak_cas_seen;
+        g.weak_cas_seen += 1;
+        k < 8 && (g.spurious_mask >> k) & 1 == 1
     }
     fn after(&self, ev: &Event) {
         let mut g = self.shared.lock();
@@ -190,6 +201,10 @@ fn describe(a: &Option<Arc<Payload>>) -> Res {
 
 /// Execute the programs under the given schedule on a fresh holder.
 pub fn run_schedule(programs: &[Vec<POp>], schedule: &[usize], step_limit: usize, w: Duration) -> RunResult {
+    run_schedule_ex(programs, schedule, 0, step_limit, w)
+}
+
+pub fn run_schedule_ex(programs: &[Vec<POp>], schedule: &[usize], spurious: u8, step_limit: usize, w: Duration) -> RunResult {
     let n = programs.len();
     let holder: Arc<SingletonHolder<Payload>> = Arc::new(SingletonHolder::new());
     let shared = Arc::new(Shared {
@@ -199,6 +214,8 @@ pub fn run_schedule(programs: &[Vec<POp>], schedule: &[usize], step_limit: usize
             trace: Vec::new(),
             pending_cell: vec![None; n],
             abort: false,
+            spurious_mask: spurious,
+            weak_cas_seen: 0,
         }),
         cv: Condvar::new(),
     });
@@ -617,38 +634,79 @@ pub struct Explored {
 }
 
 pub fn explore(programs: &[Vec<POp>], max_schedules: u64, w: Duration) -> Explored {
+    // first without spurious failures; if the code uses compare_exchange_weak at all,
+    // every pattern of spurious failures over its first 3 weak CASes is explored too
+    let first = explore_mask(programs, 0, max_schedules, w);
+    if first.explored.violation.is_some() || !first.explored.complete || first.weak_cas == 0 {
+        return first.explored;
+    }
+    let mut total = first.explored;
+    let n = first.weak_cas.min(3);
+    for mask in 1u8..(1 << n) {
+        let e = explore_mask(programs, mask, max_schedules, w);
+        total.schedules += e.explored.schedules;
+        total.nontrivial += e.explored.nontrivial;
+        total.complete &= e.explored.complete;
+        if e.explored.violation.is_some() {
+            total.violation = e.explored.violation;
+            total.complete = false;
+            return total;
+        }
+    }
+    total
+}
+
+struct MaskExplored {
+    explored: Explored,
+    weak_cas: u32,
+}
+
+fn explore_mask(programs: &[Vec<POp>], mask: u8, max_schedules: u64, w: Duration) -> MaskExplored {
+    let e = explore_inner(programs, mask, max_schedules, w);
+    MaskExplored { weak_cas: e.1, explored: e.0 }
+}
+
+fn explore_inner(programs: &[Vec<POp>], mask: u8, max_schedules: u64, w: Duration) -> (Explored, u32) {
     let mut path: Vec<usize> = Vec::new();
     let mut count = 0u64;
     let mut nontrivial = 0u64;
+    let mut weak_max = 0u32;
     loop {
-        let run = run_schedule(programs, &path, 400, w);
+        let run = run_schedule_ex(programs, &path, mask, 400, w);
+        let weak_here = run
+            .trace
+            .iter()
+            .filter(|e| matches!(e, TEv::Atomic { access: Access::CompareExchange { weak: true, .. }, .. }))
+            .count() as u32;
+        weak_max = weak_max.max(weak_here);
         count += 1;
         if let Some(a) = &run.aborted {
             util::mark_inconclusive(&format!("sched run aborted: {}", a));
-            return Explored {
+            return (Explored {
                 schedules: count,
                 violation: None,
                 nontrivial,
                 complete: false,
-            };
+            }, weak_max);
         }
         let (bad, st) = judge(programs, &run);
         if st.racing_setters || st.reader_in_loading_window {
             nontrivial += 1;
         }
         if let Some(b) = bad.first() {
-            return Explored {
+            return (Explored {
                 schedules: count,
                 violation: Some((
                     SchedCase {
                         programs: programs.to_vec(),
                         schedule: run.taken.iter().map(|c| *c as u8).collect(),
+                        spurious: mask,
                     },
                     b.clone(),
                 )),
                 nontrivial,
                 complete: false,
-            };
+            }, weak_max);
         }
         // next path
         let mut taken = run.taken.clone();
@@ -663,21 +721,21 @@ pub fn explore(programs: &[Vec<POp>], max_schedules: u64, w: Duration) -> Explor
             }
         }
         if !advanced {
-            return Explored {
+            return (Explored {
                 schedules: count,
                 violation: None,
                 nontrivial,
                 complete: true,
-            };
+            }, weak_max);
         }
         path = taken;
         if count >= max_schedules {
-            return Explored {
+            return (Explored {
                 schedules: count,
                 violation: None,
                 nontrivial,
                 complete: false,
-            };
+            }, weak_max);
         }
     }
 }
@@ -732,13 +790,17 @@ impl Campaign for SchedCampaign {
     fn strategy(&self, _tier: Tier) -> BoxedStrategy<SchedCase> {
         let op = prop_oneof![3 => Just(POp::Set), 3 => Just(POp::Get), 2 => Just(POp::IsSet)];
         let prog = prop::collection::vec(op, 1..=3);
-        (prop::collection::vec(prog, 2..=3), prop::collection::vec(any::<u8>(), 0..48))
-            .prop_map(|(programs, schedule)| SchedCase { programs, schedule })
+        (
+            prop::collection::vec(prog, 2..=3),
+            prop::collection::vec(any::<u8>(), 0..48),
+            prop_oneof![3 => Just(0u8), 1 => any::<u8>()],
+        )
+            .prop_map(|(programs, schedule, spurious)| SchedCase { programs, schedule, spurious })
             .boxed()
     }
     fn check(&self, case: &SchedCase, ctx: &Ctx) -> Outcome {
         let sched: Vec<usize> = case.schedule.iter().map(|c| *c as usize).collect();
-        let run = run_schedule(&case.programs, &sched, 400, ctx.w());
+        let run = run_schedule_ex(&case.programs, &sched, case.spurious, 400, ctx.w());
         if let Some(a) = &run.aborted {
             util::mark_inconclusive(&format!("sched run aborted: {}", a));
             return Outcome::ok();
@@ -792,6 +854,7 @@ impl Campaign for ExhaustiveCampaign {
         Just(SchedCase {
             programs: vec![vec![POp::Set], vec![POp::Get]],
             schedule: vec![],
+            spurious: 0,
         })
         .boxed()
     }
@@ -809,7 +872,7 @@ impl Campaign for ExhaustiveCampaign {
         Outcome {
             verdict: match ex.violation {
                 None => Ok(()),
-                Some((c, why)) => Err(format!("schedule {:?}: {}", c.schedule, why)),
+                Some((c, why)) => Err(format!("schedule {:?} (spurious weak-CAS failures mask {:#b}): {}", c.schedule, c.spurious, why)),
             },
             nontrivial: ex.nontrivial > 0,
             fingerprint: util::hash_json(&case.programs),
